@@ -10,6 +10,7 @@ import skel
 import lemmas as LM
 import spec_smt as S
 import layout
+import samplers
 from e2run import merged
 
 Q = LM.Q
@@ -591,6 +592,8 @@ class Suite:
             self.run.functions.append('MIR sig_decode / sig_encode / sk_decode / sk_encode / pk_decode / w1_encode (section layout, per parameter set, loop index symbolic)')
         except e2.Refuse as e:
             self.refused('layout obligations', ['C08', 'C02', 'C09'], str(e))
+        samplers.run(self.funcs, self.results)
+        self.run.functions.append('MIR expand_a / expand_s closures, expand_mask, rej_ntt_poly, rej_bounded_poly (seed construction; one loop iteration from an arbitrary counter)')
         return self.results
 
 
